@@ -38,7 +38,10 @@ __CPROVER_ensures(!READ_OK(in, 3) || ghost_mkey != KEYID(TOK(in, 0)) ==> MAP.pre
 //@ contract
 __CPROVER_requires(__CPROVER_is_fresh(self, sizeof(*self)) && __CPROVER_is_fresh(self->fpowm_table_h, TMCG_MAX_FPOWM_T * sizeof(mpz_t)))
 __CPROVER_requires(P != 0 && __tmcg_thrown == 0)
-__CPROVER_assigns(__CPROVER_object_whole(self->fpowm_table_h), __tmcg_thrown)
+__CPROVER_assigns(__CPROVER_object_whole(self->fpowm_table_h), __tmcg_thrown, ghost_pre_tab, ghost_pre_t)
 /* C08: the fixed-base table used for masking is rebuilt for the final common key */
 __CPROVER_ensures(__tmcg_thrown == 0 && V(self->fpowm_table_h[0]) == H)
+/* C01: ... for every exponent below q, i.e. with |q| entries (masking raises h to exponents of up to |q| bits; a
+ * shorter table silently yields h^r = 0) */
+__CPROVER_ensures(ghost_pre_tab == (const void *)self->fpowm_table_h && ghost_pre_t == UF(bits)(Q))
 //@ end
